@@ -427,6 +427,25 @@ Theorem C13_vlr_list_assigned : forall s vl, InvB s ->
 Proof. exact assign_vlrs_inv. Qed.
 Print Assumptions C13_vlr_list_assigned.
 
+(* round 7: the synchronisation forgets what the extra-bytes records of the list SAID — the list of another file whose
+   extra-bytes VLR describes dimensions of the same names and types with other scales / offsets / descriptions is
+   synchronised exactly like the list without that record: the new record is rebuilt from the current dimensions alone
+   (no descriptor of the old list is kept) *)
+Theorem C13_sync_forgets_old_descriptors : forall ex vl1 vl2, filter not_eb vl1 = filter not_eb vl2 ->
+  sync_vlrs ex vl1 = sync_vlrs ex vl2.
+Proof. exact sync_vlrs_forgets. Qed.
+Print Assumptions C13_sync_forgets_old_descriptors.
+
+Theorem C13_vlr_list_assigned_forgets : forall s vl1 vl2, filter not_eb vl1 = filter not_eb vl2 ->
+  assign_vlrs s vl1 = assign_vlrs s vl2.
+Proof. exact assign_vlrs_forgets. Qed.
+Print Assumptions C13_vlr_list_assigned_forgets.
+
+Theorem C13_foreign_descriptors_leave_no_trace : forall s vl1 vl2 q, len q mod 192 = 0 ->
+  assign_vlrs s (vl1 ++ eb_vlr q :: vl2) = assign_vlrs s (vl1 ++ vl2).
+Proof. exact assign_vlrs_foreign_eb. Qed.
+Print Assumptions C13_foreign_descriptors_leave_no_trace.
+
 (* no operation reads the header's point count: histories that differ only in that counter — at the start, or by
    assignments to it along the way — have the same outcomes and end in the same world, flag and params *)
 Theorem C13_point_count_not_read : forall a b o, same_but_count a b ->
